@@ -9,9 +9,14 @@
 (* The TRUE/TRUE configuration is the code after the fix: commits; the other two are regression  *)
 (* witnesses that TLC has to refute.  LateReplies = TRUE lets the peer answer requests whose      *)
 (* caller already gave up (multiplies the state space; small NC in the quick tier).               *)
+(*   SecondaryOnly    = FALSE : routing as originally coded: any inbound data message whose system *)
+(*                              bytes equal those of an open request is put into that request's     *)
+(*                              response queue -- also a PRIMARY of the peer (PeerCollide): system    *)
+(*                              bytes are unique per originator only (E5 / E37), the peer's counter   *)
+(*                              may coincide with ours.  TRUE: after fix: only a secondary is a reply. *)
 EXTENDS Naturals, Sequences, FiniteSets, TLC
 
-CONSTANTS AtomicCounter, SingleDispatcher, LateReplies, NC, NU, M, MaxConn
+CONSTANTS AtomicCounter, SingleDispatcher, LateReplies, SecondaryOnly, NC, NU, M, MaxConn
 
 Callers == 1..NC
 Disp == 1..2
@@ -82,9 +87,14 @@ PeerLateReply(s, c) == /\ pc[c] = "done" /\ got[c] = 0 /\ sys[c] = s /\ c \notin
                        /\ dispq' = Append(dispq, [k |-> "reply", sys |-> s, for |-> c])
                        /\ UNCHANGED <<ctr, pc, sys, got, reg, rq, wire, alive, dpc, dmsg, applog, busy, nextU, conn>>
 PeerUnsol == /\ nextU <= NU
-             /\ dispq' = Append(dispq, [k |-> "unsol", id |-> nextU])
+             /\ dispq' = Append(dispq, [k |-> "unsol", id |-> nextU, sys |-> M])       \* M: system bytes nobody here uses
              /\ nextU' = nextU + 1
              /\ UNCHANGED <<ctr, pc, sys, got, reg, rq, wire, alive, dpc, dmsg, applog, busy, conn, late>>
+(* a primary of the peer whose system bytes (the peer's own numbering) coincide with a request that is open here *)
+PeerCollide(c) == /\ nextU <= NU /\ pc[c] # "idle"
+                  /\ dispq' = Append(dispq, [k |-> "unsol", id |-> nextU, sys |-> sys[c]])
+                  /\ nextU' = nextU + 1
+                  /\ UNCHANGED <<ctr, pc, sys, got, reg, rq, wire, alive, dpc, dmsg, applog, busy, conn, late>>
 Reconnect == /\ conn < MaxConn
              /\ conn' = conn + 1
              /\ wire' = {}                                  \* requests in flight are lost with the link
@@ -97,8 +107,8 @@ DtTake(d) == /\ d \in alive /\ dpc[d] = "idle" /\ dispq # <<>>
              /\ dpc' = [dpc EXCEPT ![d] = "took"]
              /\ UNCHANGED <<ctr, pc, sys, got, reg, rq, wire, alive, applog, busy, nextU, conn, late>>
 DtRoute(d) == /\ dpc[d] = "took"
-              /\ IF dmsg[d].k = "reply" /\ dmsg[d].sys \in reg
-                   THEN /\ rq' = [rq EXCEPT ![dmsg[d].sys] = Append(@, dmsg[d].for)]
+              /\ IF (dmsg[d].k = "reply" \/ ~SecondaryOnly) /\ dmsg[d].sys \in reg
+                   THEN /\ rq' = [rq EXCEPT ![dmsg[d].sys] = Append(@, IF dmsg[d].k = "reply" THEN dmsg[d].for ELSE NC + dmsg[d].id)]
                         /\ dpc' = [dpc EXCEPT ![d] = "idle"]
                         /\ UNCHANGED <<applog, busy>>
                    ELSE IF dmsg[d].k = "unsol"
@@ -119,12 +129,13 @@ DoCallGot == \E c \in Callers : CallGot(c)
 DoCallTimeout == \E c \in Callers : CallTimeout(c)
 DoPeerReply == \E w \in wire : PeerReply(w)
 DoPeerLateReply == LateReplies /\ \E c \in Callers : PeerLateReply(sys[c], c)
+DoPeerCollide == \E c \in Callers : PeerCollide(c)
 DoDtTake == \E d \in Disp : DtTake(d)
 DoDtRoute == \E d \in Disp : DtRoute(d)
 DoDtDeliverEnd == \E d \in Disp : DtDeliverEnd(d)
 
 Next == DoCallInc \/ DoCallRead \/ DoCallRegister \/ DoCallSend \/ DoCallGot \/ DoCallTimeout \/ DoPeerReply \/ DoPeerLateReply
-        \/ PeerUnsol \/ Reconnect \/ DoDtTake \/ DoDtRoute \/ DoDtDeliverEnd
+        \/ PeerUnsol \/ DoPeerCollide \/ Reconnect \/ DoDtTake \/ DoDtRoute \/ DoDtDeliverEnd
 
 Spec == Init /\ [][Next]_vars
 
@@ -134,4 +145,10 @@ DistinctOutstanding == \A a, b \in Callers : (a # b /\ Outstanding(a) /\ Outstan
 OwnReplyOnly == \A c \in Callers : (pc[c] = "done" /\ got[c] # 0) => got[c] = c
 OneAtATime == Cardinality(busy) <= 1
 InOrderOnce == applog = [i \in 1..Len(applog) |-> i]
+(* an inbound message that is not a reply is on its way to the application, never in a caller's queue                *)
+QIds == {dispq[i].id : i \in {j \in 1..Len(dispq) : dispq[j].k = "unsol"}}
+NothingSwallowed == \A i \in 1..(nextU - 1) :
+                      \/ \E j \in 1..Len(applog) : applog[j] = i
+                      \/ i \in QIds
+                      \/ \E d \in Disp : dpc[d] = "took" /\ dmsg[d].k = "unsol" /\ dmsg[d].id = i
 =============================================================================
